@@ -9,12 +9,27 @@ open Dnp3.Gen.Conv
 set_option linter.unusedSimpArgs false
 set_option linter.unusedVariables false
 
+/-- the row shape of the float conversion: the two bounds, no NaN branch (NaN is representable) -/
+def f32Row : AConv := ⟨.toF32, .f32, [⟨.ltMin, true, .min⟩, ⟨.gtMax, true, .max⟩], false, .cast⟩
+
+/-- the generated row of `to_f32` has exactly that shape -/
+theorem convRow_f32 : convRow .toF32 = some f32Row := by decide
+
+theorem toF32_nan (flags r32 : Nat) : toF32 .nan flags r32 = (flags, r32) := by
+  simp only [toF32, convRow_f32]; rfl
+
+theorem toF32_inf (neg : Bool) (flags r32 : Nat) :
+    toF32 (.inf neg) flags r32 = (setOverRange flags, if neg then F32_MIN_BITS else F32_MAX_BITS) := by
+  simp only [toF32, convRow_f32]; cases neg <;> rfl
+
 theorem toF32_fin (neg : Bool) (m : Nat) (e : Int) (flags r32 : Nat) :
     toF32 (.fin neg m e) flags r32 =
       if magGt m e F32_MAX then
         (setOverRange flags, if neg then F32_MIN_BITS else F32_MAX_BITS)
       else (flags, r32) := by
-  cases neg <;> by_cases h : magGt m e F32_MAX = true <;> simp [toF32, h]
+  simp only [toF32, convRow_f32]
+  cases neg <;> by_cases h : magGt m e F32_MAX = true <;>
+    simp [runConv, f32Row, evalConv, guardHolds, retF32, h]
 
 /-- what a variation's value field is (IEEE 1815 object library) -/
 inductive VKind | flagsOnly | u32 | u16 | i32 | i16 | f32 | f64
@@ -56,7 +71,7 @@ def specTable : List VSpec := [
 
 /-- what the master must receive for measurement `m` sent through variation `s` ("what this
 variation can carry"): the value exactly if representable, clamped truncation (+ OVER_RANGE) for
-narrower integers, saturation to ±f32::MAX (+ OVER_RANGE) or the rounding for single floats, the
+narrower integers (NaN, which no integer represents: 0 + OVER_RANGE), saturation to ±f32::MAX (+ OVER_RANGE) or the rounding for single floats, the
 low 16 bits for 16-bit counters; the flag octet (value folded into the state bit(s)) or plain
 ONLINE if the variation has none; the absolute time (reported as synchronised) or none. -/
 def carry (s : VSpec) (m : Meas) (r32 : Nat) : Meas :=
@@ -136,8 +151,7 @@ def specOk (s : VSpec) : Bool :=
   s.kind != .flagsOnly || (s.hasFlags && (s.ty == .bi || s.ty == .bo || s.ty == .db))
 
 /-- field-level round trip for the realisation of any usable specification row -/
-theorem roundtrip_expected (s : VSpec) (hs : specOk s = true) (m : Meas) (r32 : Nat)
-    (hnan : (s.kind = .i16 ∨ s.kind = .i32) → AVal.ofBits m.val ≠ .nan) :
+theorem roundtrip_expected (s : VSpec) (hs : specOk s = true) (m : Meas) (r32 : Nat) :
     fromVariation (expectedFrom s) (toVariation (expectedTo s) m r32) = carry s m r32 := by
   obtain ⟨ty, g, v, kind, hf, ht⟩ := s
   cases kind
@@ -152,15 +166,15 @@ theorem roundtrip_expected (s : VSpec) (hs : specOk s = true) (m : Meas) (r32 : 
   case u16 => cases hf <;> cases ht <;> simp [fromVariation, toVariation, expectedTo, expectedFrom, carry, convResult]
   case f64 => cases hf <;> cases ht <;> simp [fromVariation, toVariation, expectedTo, expectedFrom, carry, convResult]
   case i16 =>
-    have hv := hnan (Or.inl rfl)
-    have h := toInt_nonNaN 32768 32767 (by decide) (AVal.ofBits m.val) hv m.flags
+    have h := (toI16_eq_toInt (AVal.ofBits m.val) m.flags).trans
+      (toInt_spec 32768 32767 (by decide) (AVal.ofBits m.val) m.flags)
     cases hf <;> cases ht <;>
-      simp [fromVariation, toVariation, expectedTo, expectedFrom, carry, convResult, toI16, h]
+      simp [fromVariation, toVariation, expectedTo, expectedFrom, carry, convResult, h]
   case i32 =>
-    have hv := hnan (Or.inr rfl)
-    have h := toInt_nonNaN 2147483648 2147483647 (by decide) (AVal.ofBits m.val) hv m.flags
+    have h := (toI32_eq_toInt (AVal.ofBits m.val) m.flags).trans
+      (toInt_spec 2147483648 2147483647 (by decide) (AVal.ofBits m.val) m.flags)
     cases hf <;> cases ht <;>
-      simp [fromVariation, toVariation, expectedTo, expectedFrom, carry, convResult, toI32, h]
+      simp [fromVariation, toVariation, expectedTo, expectedFrom, carry, convResult, h]
   case f32 =>
     have h : toF32 (AVal.ofBits m.val) m.flags r32 =
         ((if (match AVal.ofBits m.val with | .nan => false | .inf _ => true | .fin _ mm e => magGt mm e F32_MAX)
@@ -170,8 +184,8 @@ theorem roundtrip_expected (s : VSpec) (hs : specOk s = true) (m : Meas) (r32 : 
           | .inf neg => if neg then F32_MIN_BITS else F32_MAX_BITS
           | .fin neg mm e => if magGt mm e F32_MAX then (if neg then F32_MIN_BITS else F32_MAX_BITS) else r32)) := by
       cases AVal.ofBits m.val with
-      | nan => rfl
-      | inf neg => cases neg <;> rfl
+      | nan => exact toF32_nan m.flags r32
+      | inf neg => rw [toF32_inf]; rfl
       | fin neg mm e => rw [toF32_fin]; cases neg <;> by_cases hh : magGt mm e F32_MAX = true <;> simp [hh]
     cases hf <;> cases ht <;>
       simp [fromVariation, toVariation, expectedTo, expectedFrom, carry, convResult, h]
